@@ -24,6 +24,8 @@ THEOREMS = [
 	'Httoop.Uri.normPath_idem',
 	'Httoop.Uri.normalize_idem',
 	'Httoop.Uri.normalize_lower',
+	'Httoop.Uri.normalize_port_explicit',
+	'Httoop.Uri.normalize_port_witness',
 	'Httoop.Uri.eq_refl',
 	'Httoop.Uri.eq_symm',
 	'Httoop.Uri.eq_trans',
@@ -34,13 +36,14 @@ THEOREMS = [
 TRUSTED = [
 	'text is modelled as its UTF-8 octets; str.split/join/startswith/lower on ASCII delimiters commute with UTF-8 encoding',
 	're.sub(u"\\\\/{2,}", u"/", path) is modelled by Uri.collapse (validated by T2 on the exhaustive path enumeration)',
-	'the RFC 3986 5.2.4 equality is NOT a Lean theorem yet: Spec/Rfc3986.lean (transcribed from the RFC) is compared with the model and with the code on every enumerated path instead',
+	'Spec/Rfc3986.lean is a transcription of RFC 3986 5.2.4 by hand; it is compared with an independent Python transcription on every enumerated path',
 ]
 ASSUMPTIONS = ['URI._port is falsy or a positive int and every registered PORT is positive (schemes_ports_positive re-checks the registry)']
-RULE = ('all absolute paths of <= 6 (thorough: 7) segments over {"", ".", "..", "a", "b", "...", ".a", "a."} + random longer paths; URIs with scheme/host case and port variants; '
+RULE = ('all absolute paths of <= 6 (thorough: 7) segments over {"", ".", "..", "a", "b", "...", ".a", "a."} + random longer paths; URIs with scheme/host case and port variants, as text and put together from components by attribute assignments in random order (port before / after the scheme, scheme in any letter case, assigned twice); '
 	'equality over random triples incl. textual forms; non-trivial = the normalised path differs from the input path; distinct by normalised output')
 
 SEGS = [u'', u'.', u'..', u'a', u'b', u'...', u'.a', u'a.']
+REGISTERED_PORTS = {u'http': 80, u'https': 443, u'ftp': 21, u'svn+ssh': 22, u'git+ssh': 22, u'ldap': 389, u'imap': 143, u'nfs': 2049, u'mms': 1755}      # IANA / RFC defaults, not read from the code
 
 
 def cases(rng, tier):
@@ -68,6 +71,8 @@ def cases(rng, tier):
 	for _ in range(n):
 		yield ('norm', gen_uri(rng))
 	for _ in range(n):
+		yield ('asg', gen_assignments(rng))
+	for _ in range(n):
 		a = gen_uri(rng)
 		b = variant(rng, a) if rng.random() < 0.7 else gen_uri(rng)
 		c = variant(rng, b) if rng.random() < 0.7 else gen_uri(rng)
@@ -87,6 +92,36 @@ def gen_uri(rng):
 	f = rng.choice([u'', u'', u'#f'])
 	ui = rng.choice([u'', u'', u'', u'u@', u'u:p@'])
 	return u'%s://%s%s%s%s%s%s' % (scheme, ui, host, port, path, q, f)
+
+
+def gen_assignments(rng):
+	"""a URI put together from components: attribute assignments in a random order (the port before or after the scheme,
+	the scheme in any letter case), as a list of (name, text) pairs; an empty port text stands for None"""
+	names = [u'scheme', u'host', u'port', u'path', u'username', u'query_string', u'fragment']
+	rng.shuffle(names)
+	names = names[:rng.randrange(2, 8)]
+	if rng.random() < 0.8 and u'scheme' not in names:
+		names.insert(rng.randrange(len(names) + 1), u'scheme')
+	if rng.random() < 0.3:
+		names.append(rng.choice([u'scheme', u'port', u'host']))      # assigned twice
+	out = []
+	for n in names:
+		if n == u'scheme':
+			v = rng.choice([u'http', u'HTTP', u'Http', u'https', u'HTTPS', u'ftp', u'FTP', u'svn+ssh', u'x-y', u'FOO', u'ws', u'WSS', u'ldap', u'File'])
+		elif n == u'host':
+			v = rng.choice([u'example.com', u'EXAMPLE.com', u'a', u'A.b.C', u'127.0.0.1', u'[::1]', u'[2001:DB8::A]'])
+		elif n == u'port':
+			v = rng.choice([u'', u'', u'80', u'443', u'8080', u'21', u'1', u'65535'])
+		elif n == u'path':
+			v = u''.join(u'/' + rng.choice(SEGS + [u'c', u'~x']) for _ in range(rng.randrange(0, 5)))
+		elif n == u'username':
+			v = rng.choice([u'', u'u', u'U'])
+		elif n == u'query_string':
+			v = rng.choice([u'', u'a=1', u'A=%7e'])
+		else:
+			v = rng.choice([u'', u'f', u'F'])
+		out.append((n, v))
+	return tuple(out)
 
 
 def variant(rng, a):
@@ -126,6 +161,8 @@ def model_lines(case):
 	if k == 'norm':
 		t = case[1].encode('utf-8')
 		return ['uri.norm %s' % hx(t), 'uri.normcompose %s' % hx(t)]
+	if k == 'asg':
+		return ['uri.assign ' + ' '.join('%s %s' % (hx(n.encode()), hx(v.encode())) for n, v in case[1])]
 	if k == 'eq':
 		return ['uri.eq %s %s' % (hx(case[1].encode()), hx(case[2].encode())), 'uri.eq %s %s' % (hx(case[2].encode()), hx(case[3].encode()))]
 
@@ -136,6 +173,14 @@ def impl_abspath(p):
 	u.path = p
 	u.abspath()
 	return u.path
+
+
+def built(pairs):
+	from httoop.uri import URI
+	u = URI()
+	for n, v in pairs:
+		setattr(u, n, (int(v) if v else None) if n == u'port' else v)
+	return u
 
 
 def impl_lines(case):
@@ -150,6 +195,12 @@ def impl_lines(case):
 			u.normalize()
 			return u
 		return [guarded(lambda: render_uri(f())), guarded(lambda: 'ok ' + hx(bytes(f())))]
+	if k == 'asg':
+		def g():
+			u = built(case[1])
+			u.normalize()
+			return render_uri(u) + ' eff=%s' % (u.port if u.port else None,)
+		return [guarded(g)]
 	if k == 'eq':
 		return [guarded(lambda: 'ok ' + str(URI(case[1].encode()) == case[2].encode()).lower()), guarded(lambda: 'ok ' + str(URI(case[2].encode()) == case[3].encode()).lower())]
 
@@ -205,6 +256,33 @@ def oracle(case):
 		if bad:
 			return {'what': '; '.join(bad), 'uri': case[1], 'finding': None}
 		return None
+	if k == 'asg':
+		try:
+			u = built(case[1])
+			u.normalize()
+			once = (type(u), u.tuple)
+			u.normalize()
+			twice = (type(u), u.tuple)
+		except Exception as e:
+			return {'what': 'building / normalising raised %s' % exc_name(e), 'assignments': list(case[1]), 'finding': None}
+		bad = []
+		if once != twice:
+			bad.append('not idempotent')
+		if u.scheme != u.scheme.lower() or u.host != u.host.lower():
+			bad.append('scheme %r / host %r not lower case' % (u.scheme, u.host))
+		last = dict(case[1])
+		default = REGISTERED_PORTS.get(last.get(u'scheme', u'').lower())
+		if default:
+			# the last port assigned decides when it named one; otherwise the default port of the scheme must be there
+			stored = [v for n, v in case[1] if n == u'port']
+			if stored and stored[-1]:
+				if u.port != int(stored[-1]):
+					bad.append('port %r, assigned %s' % (u.port, stored[-1]))
+			elif not u.port:
+				bad.append('default port not explicit: port is %r' % (u.port,))
+		if bad:
+			return {'what': '; '.join(bad), 'assignments': list(case[1]), 'finding': None}
+		return None
 	if k == 'eq':
 		try:
 			a, b, c = (URI(x.encode()) for x in case[1:])
@@ -235,6 +313,8 @@ def nontrivial(case, outs):
 		return ('p', out) if out != hx(case[1].encode('utf-8')) else None
 	if k == 'norm':
 		return ('n', outs[0]) if outs and outs[0].startswith('ok') else None
+	if k == 'asg':
+		return ('a', outs[0]) if outs and outs[0].startswith('ok') else None
 	if k == 'eq':
 		return ('e',) + tuple(case[1:]) if outs and 'true' in outs[0] else None
 
@@ -256,7 +336,7 @@ def finding_still_fails(k):
 
 
 LEVEL_TEXT = ('Theorems over ALL path texts and ALL URI values (no bound on length or segment count): abspath leaves no dot segment and no slash run, abspath and normalize are idempotent, '
-	'scheme/host are lower-cased, == is an equivalence on URIs with a scheme and equals equality of normalised tuples. The RFC 5.2.4 agreement is checked (not proved) against a Lean '
-	'transcription of the RFC and an independent Python one on the exhaustive path enumeration.')
-LEVEL_NOTE = ('Trusted: Lean kernel; extract.py/correspondence; UTF-8 text-as-octets convention; re.sub modelled by collapse. The equality with RFC 3986 5.2.4 is correspondence-level only '
-	'(DESIGN.md, C11: open theorem abspath_eq_rfc).')
+	'scheme/host are lower-cased, the default port of the scheme is the effective port after normalisation whatever order the components were assigned in (normalize_port_explicit), '
+	'== is an equivalence on URIs with a scheme and equals equality of normalised tuples, and for every path that begins with a slash abspath() is remove_dot_segments of RFC 3986 5.2.4 applied to the path with its slash runs collapsed (abspath_eq_rfc, normalize_path_rfc). '
+	'Tied by correspondence on the exhaustive path enumeration, on URI texts and on URIs built from components.')
+LEVEL_NOTE = ('Trusted: Lean kernel; extract.py/correspondence; UTF-8 text-as-octets convention; re.sub modelled by collapse; Spec/Rfc3986.lean is a hand transcription of the RFC pseudo-code, compared with a second one in Python.')
